@@ -59,7 +59,8 @@ def _strategy(maxW: int):
                 st_["mask"] = [True] + [draw(st.booleans()) for _ in range(npar - 1)]
                 steps.append(st_)
         return {"flavour": fl, "R": R, "S": S, "G": G, "comm_params": draw(st.booleans()), "comm_dtype": draw(st.sampled_from(["default", "fp32", "fp16", "bf16"])),
-                "cfg": cfg, "shapes": shapes, "pseed": draw(st.integers(0, 10**5)), "steps": steps, "repair": True}
+                "cfg": cfg, "shapes": shapes, "pseed": draw(st.integers(0, 10**5)), "steps": steps, "repair": True,
+                "pdtypes": ([draw(st.sampled_from(["bf16", "f32", "f32"])) for _ in shapes] if (draw(st.integers(0, 5)) == 0 and cfg["pdtype"] in ("f32", "bf16")) else None)}
 
     return case()
 
